@@ -62,6 +62,10 @@ pub struct Case {
     /// the target's main thread has exited (zombie thread-group leader never reaches state T)
     #[serde(default)]
     pub leader_exits: bool,
+    /// size limit handed to the writer for every request of the scenario (from far below to above the
+    /// size of the finished image)
+    #[serde(default)]
+    pub size_limit: Option<u32>,
 }
 
 #[derive(Debug, Clone, PartialEq, Eq)]
@@ -271,7 +275,7 @@ pub fn check(c: &Case) -> Verdict {
     // with a zombie leader the stop step always runs into its timeout: keep it short
     let stop_timeout = c.stop_timeout_ms.map(|v| v as u64).or(if c.leader_exits { Some(15) } else { None });
     let first_worker = threads.iter().find(|(_, _, k)| *k != K_EXITER).map(|(_, tid, _)| *tid).unwrap_or(pid);
-    let mut opts = DumpOpts { blamed: if c.leader_exits { first_worker } else { pid }, sanitize: c.sanitize, app_memory: vec![(appmap + 5, 3000)], stop_timeout_ms: stop_timeout, ..Default::default() };
+    let mut opts = DumpOpts { blamed: if c.leader_exits { first_worker } else { pid }, sanitize: c.sanitize, app_memory: vec![(appmap + 5, 3000)], stop_timeout_ms: stop_timeout, size_limit: c.size_limit.map(|l| l as u64), ..Default::default() };
     if c.with_crash {
         let mut s = 99u64;
         let mut gregs: Vec<i64> = (0..23).map(|_| splitmix(&mut s) as i64).collect();
@@ -595,9 +599,9 @@ pub fn case_strategy() -> impl Strategy<Value = Case> {
         any::<bool>(),
         any::<bool>(),
         prop_oneof![5 => Just(None), 2 => Just(Some(0u8)), 1 => Just(Some(1u8)), 1 => Just(Some(40u8))],
-        proptest::bool::weighted(0.15),
+        (proptest::bool::weighted(0.15), proptest::option::weighted(0.3, prop_oneof![3 => 0u32..120_000, 1 => any::<u32>()])),
     )
-        .prop_map(|(mut threads, signals, stop_failspot, failmasks, cue_exiters, sanitize, with_crash, stop_timeout_ms, leader_exits)| {
+        .prop_map(|(mut threads, signals, stop_failspot, failmasks, cue_exiters, sanitize, with_crash, stop_timeout_ms, (leader_exits, size_limit))| {
             let mut burners = 0;
             for k in threads.iter_mut() {
                 if *k == K_SPINNER {
@@ -607,7 +611,7 @@ pub fn case_strategy() -> impl Strategy<Value = Case> {
                     }
                 }
             }
-            Case { threads, signals, stop_failspot, failmasks, cue_exiters, sanitize, with_crash, stop_timeout_ms, leader_exits }
+            Case { threads, signals, stop_failspot, failmasks, cue_exiters, sanitize, with_crash, stop_timeout_ms, leader_exits, size_limit }
         })
 }
 
@@ -618,7 +622,7 @@ pub fn run(ctx: &mut LaneCtx) {
         SubSpec {
             name: "faults-and-signals",
             cases: (64, 2_000),
-            rule: "per generated scenario (1..12 sleeper/parked/spinner/exiter threads and at most one sandbox-style helper thread running with a null stack pointer, signal schedule of up to 9 entries over 7 phase points (with extra weight on the attach of the signalled thread itself) x thread x {SIGUSR1,SIGHUP,SIGTRAP,SIGURG,SIGRTMIN+0..3} x count 1..5, StopProcess fail point on/off, exiters cued at the threads-enumerated hook): one fault-free dump with the schedule, then EVERY destination call failing as I/O error and as panic (exhaustive per scenario), sampled fail-point subsets and two natural hard errors; after each of them the liveness predicate, after the first the signal accounting; every scenario is non-trivial; distinct = hash of scenario",
+            rule: "per generated scenario (1..12 sleeper/parked/spinner/exiter threads and at most one sandbox-style helper thread running with a null stack pointer, signal schedule of up to 9 entries over 7 phase points (with extra weight on the attach of the signalled thread itself) x thread x {SIGUSR1,SIGHUP,SIGTRAP,SIGURG,SIGRTMIN+0..3} x count 1..5, StopProcess fail point on/off, a size limit (none / 0..120000 bytes / any) in three scenarios of ten, exiters cued at the threads-enumerated hook): one fault-free dump with the schedule, then EVERY destination call failing as I/O error and as panic (exhaustive per scenario), sampled fail-point subsets and two natural hard errors; after each of them the liveness predicate, after the first the signal accounting; every scenario is non-trivial; distinct = hash of scenario",
             strategy: case_strategy().boxed(),
             max_shrink_iters: 40,
             log_current: true,
